@@ -1,5 +1,6 @@
 SPECIFICATION Spec
 CONSTANTS
   MaxOps = 5
+  Focus = "all"
   EmitOn = TRUE
 CHECK_DEADLOCK FALSE
